@@ -253,6 +253,12 @@ class TestCase(unittest.TestCase):
             (Exception, self._report_error),
         ]
 
+    @property
+    def _non_failing_exceptions(self):
+        # Outcomes that must not hide a failure or error raised by another
+        # stage of the same test (see RunTest._pick_exception).
+        return (self.skipException, _ExpectedFailure)
+
     def _reset(self):
         """Reset the test case as if it had never been run."""
         self._cleanups = []
